@@ -16,7 +16,8 @@ import (
 	"verif/internal/ev"
 )
 
-func TestMain(m *testing.M) { ev.Main(m) }
+// TestMain: statistics are flushed, then every real server of the black-box campaign (bb_test.go) is stopped and removed.
+func TestMain(m *testing.M) { bbMain(m) }
 
 // ---------------------------------------------------------------- data generator
 
